@@ -103,7 +103,7 @@ def big_structure(draw, **kw):
     """Structures outside the size / content envelope of `structure`: protein chains and nucleic-acid
     strands in ONE file (`mixed`), many chains (4-9, or 27-30: more than the alphabet), one long chain
     (10-24 residues).  desc["big"] names the kind."""
-    kind = draw(st.sampled_from(["mixed", "mixed", "mixed", "many", "many", "alphabet", "long", "long", "hidden-many"]))
+    kind = draw(st.sampled_from(["mixed", "mixed", "mixed", "many", "many", "alphabet", "long", "long", "hidden-many", "water-box"]))
 
     def mk(**base):
         p = dict(contact=False, variants=0.3)
@@ -123,6 +123,16 @@ def big_structure(draw, **kw):
     elif kind == "alphabet":
         desc = draw(mk(min_chains=27, max_chains=30, nmax=2, idpool=MANY_IDS))
         desc["waters"] = desc.get("waters", [])[:1]
+    elif kind == "water-box":
+        # a short peptide in a box of 60-200 waters (hydrogen-bonded lattice, or too sparse to bond)
+        desc = draw(mk(max_chains=1, nmax=3))
+        nw = draw(st.integers(60, 200))
+        spacing = draw(st.sampled_from([2.8, 3.1, 4.5]))
+        first = draw(st.sampled_from([1, 300, 9700]))
+        side = int(round(nw ** (1 / 3))) + 1
+        desc["waters"] = [dict(xyz=[15.0 + spacing * (k % side) + 0.01 * ((7 * k) % 13), 15.0 + spacing * ((k // side) % side) + 0.01 * ((5 * k) % 11),
+                                    15.0 + spacing * (k // (side * side)) + 0.01 * ((3 * k) % 7)], chain="W", seq=first + k, h="none")
+                          for k in range(nw)]  # fmt: skip
     elif kind == "hidden-many":
         # 53-56 copies of one short peptide under ONE chain id, no TER: chain ends recognisable only by
         # the OXT atoms - more hidden chains than there are letters to name them
